@@ -133,9 +133,21 @@ def exhaustive(rng):
     return out
 
 
-def texts_of(lines):
-    full = "\n".join(PRELUDE + [l for l, _ in lines]) + "\n"
-    blank = "\n".join(PRELUDE + [(l if s else "") for l, s in lines]) + "\n"
+MACRO_BREAKERS = (".endm", ".macro", ".exit", ".include")
+
+
+def texts_of(lines, wrap=None):
+    """wrap = None: the tree as it stands; = a list of argument texts: the tree as the body of a macro that is called with these
+    arguments - selection works the same inside an expansion, and text of unselected arms is not looked at there either
+    (a parameter reference @n that the call does not supply is such text)"""
+    body = [l for l, _ in lines]
+    blanked = [(l if s else "") for l, s in lines]
+    if wrap is not None and not any(b in l for l in body for b in MACRO_BREAKERS):
+        call = " tree" + ((" " + ", ".join(wrap)) if wrap else "")
+        body = [".macro tree"] + body + [".endm", call]
+        blanked = [".macro tree"] + blanked + [".endm", call]
+    full = "\n".join(PRELUDE + body) + "\n"
+    blank = "\n".join(PRELUDE + blanked) + "\n"
     return full, blank
 
 
@@ -148,6 +160,13 @@ def run(res):
         n = rng.randrange(1, 5)
         trees.append(t.block(rng.choice([0, 1, 2, 3]), [rng.random() < 0.4 for _ in range(n)], rng.random() < 0.5, True))
     pairs = [texts_of(t) for t in trees]
+    # the same trees as macro bodies, with parameter references in unselected text and fewer arguments than referenced
+    for t in trees[::3]:
+        import re
+        structural = lambda l: re.search(r"[.#](if|ifdef|ifndef|elif|else|endif)\b", l) is not None
+        refs = [(l if s or structural(l) or rng.random() < 0.5 else rng.choice([" ldi r17, @1", " .dw @3, @2", "@0", " .db @9", l + " ; @1"])) for l, s in t]
+        t2 = [(r, s) for r, (l, s) in zip(refs, t)]
+        pairs.append(texts_of(t2, wrap=rng.choice([[], ["1"], ["r16"]])))
     obs = P.correspond(res, vh, exe, [p[0] for p in pairs] + [p[1] for p in pairs], "conditional-assembly programs")
     nsel = 0
     for full, blank in pairs:
